@@ -74,6 +74,9 @@ def gen_cases(ctx: Ctx) -> list:
         ents = gen.wide_tree(rng)
         if ents:
             cases += gen.cases_for_tree(rng, ents, 2, 2, "wide", pkg_prob=0.25)
+    # (2b) several roots with overlapping module names (root order, verify_module, near-miss levels)
+    for _ in range(ctx.pick(700, 8000)):
+        cases.append(gen.multiroot_case(rng))
     # (3) malformed stream
     for _ in range(ctx.pick(300, 4000)):
         ents = gen.odd_tree(rng)
@@ -213,7 +216,8 @@ def search_near(ctx: Ctx, case: Case, world: str) -> None:
                     return
     # CLI three-way on the same files placed as a package
     files = sorted(p for p, k in base_entries if k == "f" and p.endswith((".py", ".pyi")))
-    if files:
+    plain = all(c.isidentifier() for f in files for c in f.rsplit(".", 1)[0].split("/"))
+    if files and plain:
         pk = ["pk/" + "/".join(f.split("/")[1:]) for f in files if "/" in f]
         if pk:
             three_way_tree(ctx, get_runner(ctx), pk, rng.choice(["A", "B", "C"]), "near-diff")
